@@ -165,3 +165,21 @@ pub fn limiter_buckets(ip: std::net::IpAddr) -> (usize, usize) {
     }
     (bucket1, bucket2)
 }
+
+impl Limiter {
+    /// Let `secs` seconds pass for the limiter without waiting: every bucket's stored timestamp
+    /// ("when it was last empty") is moved `secs` into the past.
+    pub async fn shift_time(&self, secs: u32) {
+        for b in self.0 .0.iter() {
+            let mut g = b.write().await;
+            let z = g.verif_state();
+            *g = GenericTokenBucket::verif_with_state(z.saturating_sub(secs));
+        }
+    }
+}
+
+/// The cookie keys a freshly started service begins with: `CookieKeys::new()`'s (current, previous).
+pub fn fresh_cookie_keys() -> ([u8; 8], [u8; 8]) {
+    let k = CookieKeys::new();
+    (k.current, k.previous)
+}
